@@ -569,18 +569,28 @@ def window_cursor(prog, rep, L):
         if not cons:
             continue
 
+        CLEAN = (-1, -1)
+        ZERO = (-2, -2)      # the field holds the constant 0 ("nothing examined yet"), which is valid for any window
+
         def transfer(st, e):
             if e.cls == "CallExpr" and e.callee == "netbuf_read_consume":
-                return e.pos
+                return ZERO if st == ZERO else e.pos
             if e.is_assign and e.op == "=" and isw(norm(e.kid(0))):
+                return ZERO if norm(e.kid(1)) == ("c", 0) else CLEAN
+            if (e.is_assign or e.is_incdec) and isw(norm(e.kid(0))) and st == ZERO:
                 return CLEAN
             return st
-        CLEAN = (-1, -1)
-        s = Solver(f, CLEAN, transfer, None, lambda a, b: a if a != CLEAN else b).run()
+
+        def join(a, b):
+            if a == b:
+                return a
+            stale = [x for x in (a, b) if x not in (CLEAN, ZERO)]
+            return stale[0] if stale else CLEAN
+        s = Solver(f, CLEAN, transfer, None, join).run()
         bad = {}
 
         def visit(e, st):
-            if st == CLEAN:
+            if st in (CLEAN, ZERO):
                 return
             if e.cls == "ImplicitCastExpr" and e.op == "LValueToRValue" and isw(norm(e.kid(0))):
                 bad.setdefault(st, (e, "read here"))
